@@ -5,7 +5,7 @@ PROPERTY = {
     "title": "a request not marked idempotent is never re-sent after it may have been applied",
     "level": "proof",
     "level_text": "Deductive proof over the full domain (every RequestAttemptError/DbError variant with arbitrary field values incl. strings, every session state, idempotence flag and consistency): Verus proves on the extracted real decide_should_retry of the Default, DowngradingConsistency and Fallthrough sessions that a non-idempotent request is retried only after Unavailable / IsBootstrapping / UnableToAllocStreamId / ReadTimeout, that IgnoreWriteError needs idempotence, that the default policy never retries at serial consistency, and that same-target retries are gated by one-shot flags; lemmas over arbitrary failure histories bound same-target retries by 2 (Default) / 1 (Downgrading) / 0 (Fallthrough).",
-    "level_note": "Trusted: Verus/Z3; payload types of the error enums are opaque (never inspected by the policies); derive(PartialEq) on WriteType/Consistency is structural equality. Not covered: the async execution loop (client/execution.rs) sending exactly the attempts the policy decided, and the plan-length part of the attempt bound (needs Session/Connection; no function-level contract within reach).",
+    "level_note": "Trusted: Verus/Z3; payload types of the error enums are opaque (never inspected by the policies); derive(PartialEq) on WriteType/Consistency is structural equality. Bounded (not counted as proved): the Kani harness on ExecuteRequestContext::retry_session (3 uses). Not covered: the rest of the async execution loop (client/execution.rs) sending exactly the attempts the policy decided, and the plan-length part of the attempt bound (needs Session/Connection; no function-level contract within reach).",
     "technique": "contract-based deductive verification: Verus ensures-clauses taken from the property text on extracted functions + inductive lemmas over decision histories",
     "verus": [
         Unit("c06_retry", "C06", "c06_retry.vrs", desc={
@@ -17,9 +17,14 @@ PROPERTY = {
             "lemma_downgrading_same_target_bound": "any failure history: at most 1 same-target retry (Downgrading)",
         }, carries_lemmas=("lemma_default_same_target_bound", "lemma_downgrading_same_target_bound")),
     ],
-    "kani": [],
-    "trusted_base": ["Verus/Z3 soundness", "opaque payload types of error enums", "derive(PartialEq) = structural equality"],
+    "kani": [
+        Harness("c06_retry_session_persists", "C06.execution.retry_session.persists", "BOUNDED",
+                "ExecuteRequestContext::retry_session: the first use asks the policy for a session, each later use on the same request context returns that same object (address and state) and the policy is not asked again",
+                bound="3 consecutive uses of the accessor on one context (the accessor has no loop; the bound is on the harness' call sequence)",
+                functions=["scylla/src/client/execution.rs:ExecuteRequestContext::retry_session"], needs_cover=True, timeout=600),
+    ],
+    "trusted_base": ["Verus/Z3 soundness", "Kani/CBMC soundness (accessor harness; the RequestSpan reference is left uninitialised: the accessor never reads it)", "opaque payload types of error enums", "derive(PartialEq) = structural equality"],
     "assumptions": [],
-    "not_covered": ["RequestExecutionParams::run_request_speculative_fiber (async execution loop): that the driver sends exactly the decided attempts",
+    "not_covered": ["RequestExecutionParams::run_request_speculative_fiber (async execution loop) apart from its retry_session accessor: that the driver sends exactly the decided attempts",
                     "end-to-end attempt count <= plan length + same-target retries"],
 }
